@@ -91,6 +91,8 @@ class Parser_parse:
         # result is empty; the result is never an error object
         if not out.ret:
             return False
+        if not called('clear_tracebacks'):
+            return False              # C02: every evaluation, failed or not, ends by dropping the tracebacks it left on the shared errors
         r = out.value
         if len(r) != 2 or not ('result' in r) or not ('error' in r):
             return False
